@@ -64,6 +64,18 @@ def stepLine (t : FlexTab) (ws : List String) : FlexTab × String :=
     | some k, some v, some c, some cid, some tags =>
       (t, "enc " ++ toHex (encodeHeader { key := k, ver := v, corr := c, clientId := cid } (flexOf t k v) tags))
     | _, _, _, _, _ => (t, "bad-op")
+  | ["preq", oracle, hx] =>
+    -- ParseRequest = header stage + body stage; kmsg's verdict on the body is the parameter `dec` (the harness's `kdec` oracle),
+    -- `known` = the keys of the flexibility table (= the keys kmsg.RequestForKey knows)
+    match fromHex hx with
+    | some b =>
+      let known : Int → Bool := fun k => t.any (fun e => e.1 == k)
+      let dec : Int → Int → Bytes → Option Unit := fun _ _ _ => if oracle == "ok" then some () else none
+      (t, match parseRequest (flexOf t) known dec b with
+        | .ok (h, _) => s!"ok {h.key} {h.ver} {h.corr} cid={cidStr h.clientId}"
+        | .err => "err"
+        | .panic => "panic")
+    | none => (t, "bad-op")
   | ["rt", k, v, c, cid, hx] => match k.toInt?, v.toInt?, c.toInt?, fromHex hx with
     | some k, some v, some c, some b =>
       (t, match parseHeader (flexOf t) b with
